@@ -120,6 +120,7 @@ class TU:
                     self.records[n.get('name', f'<anon{n["id"]}>')] = [c['name'] for c in n.get('inner', []) if c.get('kind') == 'FieldDecl']
             elif k == 'VarDecl':
                 self.globals[n['name']] = n
+        for f in self.functions.values(): f['_tufuncs'] = self.functions      # lets an analysis follow calls to helpers of the same unit
 
     def _enum(self, n):
         val = -1; names = []
